@@ -409,6 +409,9 @@ def run_irc_check(ck, prop, prefix, replay, n_quick=120, n_thorough=2500, kinds=
                     c["entries"].insert(ck.rng.randint(n_e // 2, n_e - 1), {"k": "S"})
                 if c["entries"] and c["entries"][-1]["k"] != "S":
                     c["entries"].append({"k": "S"})
+    if os.environ.get("VERIF_DUMP_CASES"):
+        with open(os.environ["VERIF_DUMP_CASES"], "w") as f:
+            f.write("\n".join(irclib.case_line(c) for c in cases) + "\n")
     t0 = time.time()
     findings, infos = irc_smoke.check_cases(cases)
     go_wall = time.time() - t0
